@@ -105,6 +105,10 @@ func TestVerifE5Replay(t *testing.T) {
 		vfE5ReplayF7(t, name)
 	case "empty_races_delivery":
 		vfE5ReplayEmptyDelivery(t, name)
+	case "exit_races_timeout_scan":
+		vfE5ReplayExitScan(t, name)
+	case "exit_races_pending_notify":
+		vfE5ReplayExitNotify(t, name)
 	case "f9_pump_holds":
 		vfE5ReplayF9Pump(t, name)
 	case "f9_put_after_exit_check":
@@ -483,4 +487,161 @@ func vfE5ReplayEmptyDelivery(t *testing.T, name string) {
 	fmt.Printf("E5REPLAY %s delivered_after_empty=%v in_flight_map=%d heap=%d client_in_flight_count=%d ready=%v second_delivered=%v starved=%v\n",
 		name, got, inMap, inHeap, cnt, ready, second, got && !second && cnt > 0 && inMap == 0)
 	n.Exit()
+}
+
+// vfE5BlockingConsumer is a consumer whose TimedOutMessage() parks the queue-scan worker: the
+// timed-out message has then left the in-flight map and has not been put back on the queue yet.
+type vfE5BlockingConsumer struct {
+	entered chan struct{}
+	release chan struct{}
+	used    int32
+}
+
+func (d *vfE5BlockingConsumer) UnPause()                 {}
+func (d *vfE5BlockingConsumer) Pause()                   {}
+func (d *vfE5BlockingConsumer) Close() error             { return nil }
+func (d *vfE5BlockingConsumer) Empty()                   {}
+func (d *vfE5BlockingConsumer) Stats(string) ClientStats { return nil }
+func (d *vfE5BlockingConsumer) TimedOutMessage() {
+	if atomic.CompareAndSwapInt32(&d.used, 0, 1) {
+		close(d.entered)
+		<-d.release
+	}
+}
+
+// Shutdown racing the in-flight timeout scan: message m is in flight to a consumer that never
+// answers; processInFlightQueue(t) times it out and is parked after m has left the in-flight map
+// (inside the consumer's TimedOutMessage), before it is put back on the queue; NSQD.Exit() is called.
+// On the code as it is the scan holds exitMutex.RLock across that window, so Channel.exit waits and
+// then flushes m.  After a restart every acknowledged, unfinished message must be back.
+func vfE5ReplayExitScan(t *testing.T, name string) {
+	dir := t.TempDir()
+	opts := vfE5Opts(dir)
+	opts.MemQueueSize = 10
+	n, err := New(opts)
+	if err != nil {
+		t.Fatal(err)
+	}
+	n.LoadMetadata()
+	n.PersistMetadata()
+	go n.Main()
+	topic := n.GetTopic("xs")
+	ch := topic.GetChannel("c")
+	acked := 0
+	for i := 0; i < 3; i++ {
+		if topic.PutMessage(NewMessage(topic.GenerateID(), []byte{byte(i)})) == nil {
+			acked++
+		}
+	}
+	for d := time.Now().Add(5 * time.Second); ch.Depth() < 3 && time.Now().Before(d); {
+		time.Sleep(time.Millisecond)
+	}
+	cons := &vfE5BlockingConsumer{entered: make(chan struct{}), release: make(chan struct{})}
+	ch.AddClient(77, cons)
+	msg := <-ch.memoryMsgChan
+	msg.Attempts++
+	ch.StartInFlightTimeout(msg, 77, time.Millisecond)
+	scan := make(chan string, 1)
+	go func() {
+		scan <- vfE5Try(20*time.Second, func() { ch.processInFlightQueue(time.Now().Add(time.Hour).UnixNano()) })
+	}()
+	select {
+	case <-cons.entered:
+	case <-time.After(5 * time.Second):
+		t.Fatalf("the scan never reached TimedOutMessage")
+	}
+	exitRes := make(chan string, 1)
+	go func() { exitRes <- vfE5Try(20*time.Second, func() { n.Exit() }) }()
+	// either Exit runs to its end although the scan is parked (then the window is unprotected),
+	// or it waits for the scan: give it ample time, then let the scan go on
+	exit := ""
+	exitedFirst := false
+	select {
+	case exit = <-exitRes:
+		exitedFirst = true
+	case <-time.After(1500 * time.Millisecond):
+	}
+	close(cons.release)
+	scanRes := <-scan
+	if exit == "" {
+		exit = <-exitRes
+	}
+	n2 := vfE5Restart(t, opts, dir)
+	depth := vfE5TotalDepth(n2, "xs", "c")
+	fmt.Printf("E5REPLAY %s acked=%d exit=%s scan=%s exit_finished_while_scan_parked=%v depth_after_restart=%d lost=%v\n",
+		name, acked, exit, scanRes, exitedFirst, depth, depth < int64(acked))
+	n2.Exit()
+}
+
+// vfE5NewGateAll parks every goroutine that reaches the point until release is closed.
+func vfE5NewGateAll(point string) (arrived *int32, release chan struct{}) {
+	var n int32
+	rel := make(chan struct{})
+	VerifSetHook(point, func(string) {
+		atomic.AddInt32(&n, 1)
+		<-rel
+	})
+	return &n, rel
+}
+
+// A Notify still pending when the shutdown starts: topic and channel are created so shortly before
+// Exit() that their Notify goroutines (parked at nsqd.notify.beforeSend) have not persisted yet.
+// Exit() persists, closes the first topic's channels and is parked at topic.exit.beforeFlush (NSQD
+// lock held); the notify goroutines are released: they hand the object to lookupLoop and then wait
+// for the NSQD lock; Exit continues and unlocks; the pending PersistMetadata now runs over closed
+// (Exiting) topics.  After a restart the topic/channel set and paused flags must be those before the
+// shutdown, and the backlog must be there.
+func vfE5ReplayExitNotify(t *testing.T, name string) {
+	dir := t.TempDir()
+	opts := vfE5Opts(dir)
+	opts.MemQueueSize = 10
+	n, err := New(opts)
+	if err != nil {
+		t.Fatal(err)
+	}
+	n.LoadMetadata()
+	n.PersistMetadata()
+	go n.Main()
+	time.Sleep(20 * time.Millisecond) // lookupLoop is running
+	arrived, relNotify := vfE5NewGateAll("nsqd.notify.beforeSend")
+	topic := n.GetTopic("pn")
+	ch := topic.GetChannel("c")
+	ch.Pause()
+	acked := 0
+	for i := 0; i < 2; i++ {
+		if topic.PutMessage(NewMessage(topic.GenerateID(), []byte{byte(i)})) == nil {
+			acked++
+		}
+	}
+	for d := time.Now().Add(5 * time.Second); ch.Depth() < 2 && time.Now().Before(d); {
+		time.Sleep(time.Millisecond)
+	}
+	for d := time.Now().Add(5 * time.Second); atomic.LoadInt32(arrived) < 2 && time.Now().Before(d); {
+		time.Sleep(time.Millisecond)
+	}
+	ge := vfE5NewGate("topic.exit.beforeFlush")
+	exitRes := make(chan string, 1)
+	go func() { exitRes <- vfE5Try(20*time.Second, func() { n.Exit() }) }()
+	ge.wait(t)
+	close(relNotify)
+	// the released goroutines pass their select (lookupLoop receives) and queue up on the NSQD lock
+	time.Sleep(300 * time.Millisecond)
+	close(ge.release)
+	exit := <-exitRes
+	b, _ := os.ReadFile(dir + "/nsqd.dat")
+	n2 := vfE5Restart(t, opts, dir)
+	_, terr := n2.GetExistingTopic("pn")
+	chanOK, paused := false, false
+	if terr == nil {
+		tp, _ := n2.GetExistingTopic("pn")
+		if c2, err := tp.GetExistingChannel("c"); err == nil {
+			chanOK = true
+			paused = c2.IsPaused()
+		}
+	}
+	depth := vfE5TotalDepth(n2, "pn", "c")
+	fmt.Printf("E5REPLAY %s acked=%d exit=%s pending_notifies=%d metadata_lists_topic=%v topic_after_restart=%v channel_after_restart=%v paused_kept=%v depth_after_restart=%d lost=%v\n",
+		name, acked, exit, atomic.LoadInt32(arrived), strings.Contains(string(b), `"pn"`), terr == nil, chanOK, paused, depth,
+		terr != nil || !chanOK || !paused || depth < int64(acked))
+	n2.Exit()
 }
